@@ -215,6 +215,22 @@ func Corpus() []CorpusScenario {
 				{{Op: pipeline.Delete, Obj: ptcp(nil)}},
 			},
 		},
+		{
+			// socket mode: pods a,b,c = srv001..srv003 + empty slots; a is removed dynamically
+			// (b=srv002, c=srv003, srv001 empty); d is added and must take over an empty slot's
+			// name also when session-cookie-preserve postpones its activation to the reload
+			Name: "13-churn-cookie-preserve-socket-mode",
+			Opt:  Opt{Socket: true},
+			H: [][]pipeline.Change{
+				creates(svc("ns1", "svc1"), churnPod("ns1", "svc1", 0), churnPod("ns1", "svc1", 1), churnPod("ns1", "svc1", 2), churnPod("ns1", "svc1", 3),
+					churnEndpoints("ns1", "svc1", []int{0, 1, 2}, 0, true),
+					ing("ns1", "ing1", map[string]string{"affinity": "cookie", "session-cookie-preserve": "true", "session-cookie-value-strategy": "pod-uid", "backend-server-slots-increment": "4"},
+						rule("a.example", pth("/", "svc1")))),
+				{{Op: pipeline.Update, Obj: churnEndpoints("ns1", "svc1", []int{1, 2}, 0, true)}},
+				{{Op: pipeline.Update, Obj: churnEndpoints("ns1", "svc1", []int{1, 2, 3}, 0, true)}},
+				{{Op: pipeline.Update, Obj: churnEndpoints("ns1", "svc1", []int{3, 2, 0, 1}, 0, true)}},
+			},
+		},
 	}
 }
 
